@@ -435,6 +435,9 @@ def copy_item(out, sf, kind, name, mode, meta):
                     dropped += 1
                 if not ok:
                     continue
+                body_txt = text[text.find('{') + 1:text.rfind('}')] if '{' in text else ''
+                if kind == 'enum' and 'PartialEq' in ok and 'Eq' in ok and '(' not in re.sub(r'//[^\n]*', '', body_txt) and '{' not in body_txt:
+                    ok.append('Structural')   # R7: a field-less enum's derived PartialEq IS structural equality; tells Verus so
                 l = l[:len(l) - len(l.lstrip())] + '#[derive(%s)]' % ', '.join(ok)
         if s.startswith('///') or s.startswith('//'):
             continue
